@@ -71,6 +71,7 @@ type verifResponse struct {
 	Budget    string           `json:"budget,omitempty"`
 	Tokens    int64            `json:"tokens"`
 	EOFReads  int64            `json:"eof_reads"`
+	Walks     int64            `json:"walks"`
 	DumpDiff  []verifDumpDiff  `json:"dump_diff,omitempty"`
 	DumpSize  int              `json:"dump_size,omitempty"`
 	Lex       []verifLexResult `json:"lex,omitempty"`
@@ -156,6 +157,7 @@ func verifServe() {
 
 			resp.Tokens = verifhook.Tokens
 			resp.EOFReads = verifhook.EOFReads
+			resp.Walks = verifhook.Walks
 
 			verifhook.ResetSteps(0, 0)
 
